@@ -18,7 +18,7 @@ CONSTANTS
  MaxCircuits = 2 MaxData = 2 MaxLoss = 0 MaxDup = 0 MaxAdv = 1 MaxNow = 0
  Goals = {1, 2}
  Origins = {o, o2}
- AdvKinds = {"rpforge", "tamper"}
+ AdvKinds = {"rpforge", "tamper", "reflect"}
  NodeRank <- RankDef
  AdvSrcs = {adv}
  TrackWire = TRUE
